@@ -1,16 +1,18 @@
 #!/usr/bin/env python3
-"""imports finished batch-3 seeded changes from /tmp/wt3_Cxx/_seeded/1 into seeded/Cxx/6, confirms the demo in a scratch worktree,
+"""usage: import_batch3.py [3|4]  -- imports finished batch-3 (batch-4) seeded changes from /tmp/wt3_Cxx (/tmp/wt4_Cxx)/_seeded/1 into seeded/Cxx/6 (/7), confirms the demo in a scratch worktree,
 runs the FIRST check against it and records the first-run result in seeded/FIRST_RUN.json (batch3_first_run)"""
 import json, os, shutil, subprocess, sys
 HERE = os.path.dirname(os.path.dirname(os.path.abspath(__file__)))
 FR = os.path.join(HERE, 'seeded', 'FIRST_RUN.json')
 d = json.load(open(FR))
-b3 = d.setdefault('batch3_first_run', dict(caught=[], missed=[], rejected=[]))
+BATCH = int(sys.argv[1]) if len(sys.argv) > 1 else 3
+SLOT = {3: '6', 4: '7'}[BATCH]
+b3 = d.setdefault(f'batch{BATCH}_first_run', dict(caught=[], missed=[], rejected=[]))
 for i in range(1, 21):
     pid = f'C{i:02d}'
-    src = f'/tmp/wt3_{pid}/_seeded/1'
-    dst = os.path.join(HERE, 'seeded', pid, '6')
-    cid = f'{pid}/6'
+    src = f'/tmp/wt{BATCH}_{pid}/_seeded/1'
+    dst = os.path.join(HERE, 'seeded', pid, SLOT)
+    cid = f'{pid}/{SLOT}'
     if cid in b3['caught'] + b3['missed'] + b3['rejected'] or not os.path.exists(os.path.join(src, 'meta.json')):
         continue
     try:
@@ -36,4 +38,4 @@ for i in range(1, 21):
     print(cid, 'CAUGHT' if caught else 'MISSED', [l[:140] for l in res.get(pid, {}).get('lines', [])[:3]])
     json.dump(d, open(FR, 'w'), indent=1)
 json.dump(d, open(FR, 'w'), indent=1)
-print('batch 3 so far: caught', len(b3['caught']), 'missed', len(b3['missed']), 'rejected', len(b3['rejected']))
+print(f'batch {BATCH} so far: caught', len(b3['caught']), 'missed', len(b3['missed']), 'rejected', len(b3['rejected']))
